@@ -47,7 +47,7 @@ def cases() -> Any:
             delta = table[v % len(table)] + d["whole"] * SEC * d["usewhole"]
         else:
             delta = v
-        return {"now_us": now, "delta_us": delta, "tz": d["tz"]}
+        return {"now_us": now, "delta_us": delta, "tz": d["tz"], "coff": d["coff"]}
 
     tzs = st.one_of(
         st.just({"k": "naive"}), st.just({"k": "utc"}),
@@ -65,6 +65,9 @@ def cases() -> Any:
             st.tuples(st.just("far"), st.integers(-2 * 86400 * SEC, 2 * 86400 * SEC))),
         "whole": st.integers(-3, 50), "usewhole": st.sampled_from([0, 0, 1]),
         "tz": tzs,
+        # a `cron_offset` on a schedule that has a `time` (the label source copies it from the entry): it belongs to cron
+        # expressions and must not move the instant a one-shot is compared with
+        "coff": st.one_of(st.none(), st.none(), st.none(), st.sampled_from([{"td_s": 3600}, {"td_s": -3600}, {"td_s": 7}, {"td_s": -90}, {"td_s": 86400}, {"zone": "Asia/Kolkata"}, {"zone": "UTC"}])),
     }).map(fin)
 
 
@@ -95,7 +98,9 @@ def run_case(case: Dict[str, Any]) -> Outcome:
     n, delta = case["now_us"], case["delta_us"]
     t = n + delta
     T = present(clock.from_us(t), case["tz"])
-    task = ScheduledTask(task_name="t", labels={}, args=[], kwargs={}, time=T)
+    coff = case.get("coff")
+    co: Any = None if not coff else (dtm.timedelta(seconds=coff["td_s"]) if "td_s" in coff else coff["zone"])
+    task = ScheduledTask(task_name="t", labels={}, args=[], kwargs={}, time=T, cron_offset=co)
     clock.install()
     try:
         clock.FakeDT.cur = clock.from_us(n)
@@ -105,7 +110,7 @@ def run_case(case: Dict[str, Any]) -> Outcome:
         clock.uninstall()
     nb = (n // MIN + 1) * MIN
     horizon = nb + SEC
-    desc = f"now={clock.from_us(n).isoformat()} T={T.isoformat()} (T-now={delta} us, horizon-now={horizon - n} us)"
+    desc = f"now={clock.from_us(n).isoformat()} T={T.isoformat()} (T-now={delta} us, horizon-now={horizon - n} us)" + (f" cron_offset={co!r}" if co is not None else "")
     if t <= n:
         cls = "past"
         if got != 0 or type(got) is not int:
@@ -126,7 +131,7 @@ def run_case(case: Dict[str, Any]) -> Outcome:
     near_h = abs(t - horizon) <= 2
     near_b = min(n % MIN, MIN - n % MIN) <= 1000
     out.nontrivial = bool(edge or near_h or near_b)
-    out.classes = [cls, "tz:" + case["tz"]["k"]] + [c for c, f in (("whole_second_edge", edge), ("near_horizon", near_h), ("now_near_boundary", near_b)) if f]
+    out.classes = [cls, "tz:" + case["tz"]["k"]] + (["has_cron_offset"] if coff else []) + [c for c, f in (("whole_second_edge", edge), ("near_horizon", near_h), ("now_near_boundary", near_b)) if f]
     out.trace = {"got": got, "T": T.isoformat()}
     return out
 
